@@ -370,6 +370,15 @@ def run_check(prop, scripts, aspects, tags_b=TAGS_B, witnesses=(), assumptions=(
     if extra_tier_a:
         fails_a = fails_a + extra_tier_a(impl, scripts)
     div_b = emcmp.compare(impl, model, tags_b)
+    # beyond the point where the specification says the script left the documented contract nothing is demanded of the code and
+    # nothing is predicted by the model (undefined behaviour): no comparison there
+    left_at = {}
+    for name_, sbl_ in spec:
+        for i_, b_ in enumerate(sbl_):
+            if b_['tags'].get('C') and b_['tags']['C'][0].split()[1] != '0':
+                left_at[name_] = i_
+                break
+    div_b = [d_ for d_ in div_b if d_['script'] not in left_at or d_['opn'] < left_at[d_['script']]]
     sd = dict(scripts)
     # known findings: witness scripts that are expected to fail with a given aspect
     known_lines = []
